@@ -71,3 +71,5 @@ open CalmVerif.Props.C07
 #check @ok_program_facts
 #print axioms aligned_of_walk_facts
 #check @aligned_of_walk_facts
+#print axioms catch_program_facts
+#check @catch_program_facts
